@@ -20,3 +20,4 @@ Definition c09_derive (p a b n : Z) (G : point) := derive_from_path p a b n G.
 Definition c09_py_int := py_int.
 Definition c09_path_tree := path_tree.
 Definition c09_sec1_point (p a b : Z) := sec1_point p a b.
+Definition c09_cli_hd (p a b n : Z) (G : point) := cli_hd p a b n G.
